@@ -1,6 +1,7 @@
 package chk
 
 import (
+	"strings"
 	"fmt"
 	"go/token"
 	"go/types"
@@ -1174,8 +1175,16 @@ func ruleWalkNoEarlyExit(p *Prog, r *Report, names []string) {
 			r.Anchor(rule, n)
 			continue
 		}
-		if fn.Signature.Results().Len() != 0 {
-			r.Unknown(rule, n, "walker shape", p.Pos(fn.Pos()), "the walker now has result values: an early return may be meaningful")
+		// a walker that hands the accumulated result back (l = walk(…, l)) is judged the same way; a walker with an error result
+		// may leave a loop to report an error
+		hasErr := false
+		for i := 0; i < fn.Signature.Results().Len(); i++ {
+			if isErrorType(fn.Signature.Results().At(i).Type()) {
+				hasErr = true
+			}
+		}
+		if hasErr {
+			r.Unknown(rule, n, "walker shape", p.Pos(fn.Pos()), "the walker now returns an error: an early return may be an error exit")
 			continue
 		}
 		// loop headers of range loops over slices and maps
@@ -1611,6 +1620,480 @@ func ruleSeqLeafKeys(p *Prog, r *Report) {
 			r.OK(rule, p.Name(s.fn), cons, p.Pos(firstPos(s.hdr)), "sets aside "+names(s.keys))
 		} else {
 			r.Bad(rule, p.Name(s.fn), cons, p.Pos(firstPos(s.hdr)), "this scan of the element's keys sets aside {"+names(s.keys)+"} but the child collection sets aside {"+names(ref.keys)+"}: an entry the collection would write does not count as content here, so an element holding only such entries is written as a leaf and they are lost")
+		}
+	}
+}
+
+// ---- ROOT.single (C02, C03, C04, C05) --------------------------------------------------------------------------------------------
+
+// ruleRootSingle: each of the four XML encoders writes exactly one top-level element on every path that returns a document:
+// (1) no successful return is reachable from the entry without a call of the element encoder on the output accumulator;
+// (2) after such a call no second one can follow — a call inside the range over the receiver is allowed only where the receiver
+// is known to have exactly one entry (len(m) == 1), and that loop is then not re-entered.
+func ruleRootSingle(p *Prog, r *Report) {
+	const rule = "ROOT.single"
+	for _, n := range []string{"mxj.Map.Xml", "mxj.Map.XmlIndent", "mxj.MapSeq.Xml", "mxj.MapSeq.XmlIndent"} {
+		fn := p.Fn(n)
+		if fn == nil {
+			r.Anchor(rule, n)
+			continue
+		}
+		// element encoder calls: unexported module callee that receives an output sink
+		callBlk := map[*ssa.BasicBlock]bool{}
+		var calls []*ssa.Call
+		eachInstr(fn, func(b *ssa.BasicBlock, in ssa.Instruction) {
+			c, ok := in.(*ssa.Call)
+			if !ok {
+				return
+			}
+			g := staticCallee(&c.Call)
+			if g == nil || !p.InModule(g) || p.Exported(g) {
+				return
+			}
+			for _, a := range c.Call.Args {
+				if isOutputSinkType(a.Type()) {
+					callBlk[b] = true
+					calls = append(calls, c)
+					return
+				}
+			}
+		})
+		if len(calls) == 0 {
+			r.Unknown(rule, n, "element encoder calls", p.Pos(fn.Pos()), "no call of the element encoder on an output accumulator found")
+			continue
+		}
+		// single-entry loops over the receiver
+		oneIter := map[*ssa.BasicBlock]map[*ssa.BasicBlock]bool{}
+		multi := ""
+		for _, l := range findMapLoops(fn) {
+			if l.next == nil {
+				continue
+			}
+			hasCall := false
+			for b := range l.body {
+				if callBlk[b] {
+					hasCall = true
+				}
+			}
+			if !hasCall {
+				continue
+			}
+			if p.lenIsOneGuard(l) {
+				oneIter[l.header] = l.body
+			} else {
+				multi = p.Pos(firstPos(l.header))
+			}
+		}
+		// (1)
+		missing := ""
+		{
+			seen := map[*ssa.BasicBlock]bool{fn.Blocks[0]: true}
+			work := []*ssa.BasicBlock{fn.Blocks[0]}
+			for len(work) > 0 && missing == "" {
+				b := work[len(work)-1]
+				work = work[:len(work)-1]
+				if callBlk[b] {
+					continue
+				}
+				if ret, ok := b.Instrs[len(b.Instrs)-1].(*ssa.Return); ok {
+					if len(ret.Results) > 0 && !isNilConst(ret.Results[0]) {
+						missing = p.Pos(ret.Pos())
+					}
+					continue
+				}
+				body, single := oneIter[b]
+				for _, sc := range b.Succs {
+					if single && !body[sc] {
+						continue // a map with one entry: the loop body runs
+					}
+					if !seen[sc] {
+						seen[sc] = true
+						work = append(work, sc)
+					}
+				}
+			}
+		}
+		if missing == "" {
+			r.OK(rule, n, "a root element is written on every successful path", p.Pos(fn.Pos()), fmt.Sprintf("%d element encoder call sites; no document is returned without passing one", len(calls)))
+		} else {
+			r.Bad(rule, n, "a root element is written on every successful path", missing, "the return at "+missing+" hands back a document although no call of the element encoder lies on the path to it")
+		}
+		// (2)
+		second := ""
+		if multi != "" {
+			second = "the element encoder is called inside a loop over the receiver (" + multi + ") that is not restricted to a receiver with exactly one entry"
+		}
+		for _, c := range calls {
+			seen := map[*ssa.BasicBlock]bool{}
+			var work []*ssa.BasicBlock
+			for _, sc := range c.Block().Succs {
+				work = append(work, sc)
+			}
+			for len(work) > 0 && second == "" {
+				b := work[len(work)-1]
+				work = work[:len(work)-1]
+				if seen[b] {
+					continue
+				}
+				seen[b] = true
+				if callBlk[b] {
+					// re-entering the own single-iteration loop is not a second call
+					reentry := false
+					for h, body := range oneIter {
+						if body[b] && body[c.Block()] && h != nil {
+							reentry = true
+						}
+					}
+					if !reentry || b != c.Block() {
+						if !(reentry && b == c.Block()) {
+							second = "after the element written at " + p.Pos(c.Pos()) + " the call at " + p.Pos(firstPos(b)) + " can write another top-level element"
+						}
+					}
+					continue
+				}
+				body, single := oneIter[b]
+				for _, sc := range b.Succs {
+					if single && body[sc] && body[c.Block()] {
+						continue // the one entry has been visited: the loop is left
+					}
+					work = append(work, sc)
+				}
+			}
+		}
+		if second == "" {
+			r.OK(rule, n, "at most one top-level element", p.Pos(fn.Pos()), "no path passes two element encoder calls; a call inside the range over the receiver is guarded by len(receiver) == 1")
+		} else {
+			r.Bad(rule, n, "at most one top-level element", p.Pos(fn.Pos()), second+": the document has more than one root")
+		}
+	}
+}
+
+// ---- CAST.opaque (C14, C01) ---------------------------------------------------------------------------------------------------------
+
+// ruleCastOpaque: what the decoders build does not depend on what cast() made of a value: a value taken back out of the node
+// under construction (a map lookup, or the value of a range over it) is never tested for a scalar type (string, bool, a number).
+// Such a test succeeds without the cast flag and fails with it for text that was cast, so keys appear or disappear with the flag.
+// Tests for the container types (map, list) are structural and allowed.
+func ruleCastOpaque(p *Prog, r *Report, decoders []string) {
+	const rule = "CAST.opaque"
+	castFn := p.Fn("mxj.cast")
+	for _, dn := range decoders {
+		dec := p.Fn(dn)
+		if dec == nil {
+			r.Anchor(rule, dn)
+			continue
+		}
+		n, bad := 0, ""
+		for f := range p.Reach(dec) {
+			if !p.InModule(f) || len(f.Blocks) == 0 || f == castFn || (f != dec && p.Exported(f)) {
+				continue
+			}
+			eachInstr(f, func(b *ssa.BasicBlock, in ssa.Instruction) {
+				ta, ok := in.(*ssa.TypeAssert)
+				if !ok {
+					return
+				}
+				// operand: taken out of a map[string]interface{}
+				fromNode := false
+				switch x := ta.X.(type) {
+				case *ssa.Lookup:
+					fromNode = isMapShaped(x.X.Type())
+				case *ssa.Extract:
+					if lk, ok := x.Tuple.(*ssa.Lookup); ok && x.Index == 0 {
+						fromNode = isMapShaped(lk.X.Type())
+					}
+					if nx, ok := x.Tuple.(*ssa.Next); ok && x.Index == 2 {
+						if rg, ok := nx.Iter.(*ssa.Range); ok {
+							fromNode = isMapShaped(rg.X.Type())
+						}
+					}
+				}
+				if !fromNode {
+					return
+				}
+				n++
+				if bt, ok := ta.AssertedType.Underlying().(*types.Basic); ok && bt.Kind() != types.UnsafePointer {
+					bad = p.Pos(ta.Pos()) + " (" + typeStr(ta.AssertedType) + ")"
+				}
+			})
+		}
+		if bad != "" {
+			r.Bad(rule, dn, "no scalar type test on stored values", bad, "a value taken back out of the node being built is tested for a scalar type at "+bad+": whether the test succeeds depends on whether cast() converted the text, so the decoded structure depends on the cast flag")
+		} else {
+			r.OK(rule, dn, "no scalar type test on stored values", p.Pos(dec.Pos()), fmt.Sprintf("%d type tests on values of the node under construction, all for container types", n))
+		}
+	}
+}
+
+// ---- FWD.names (C16, C19, C20) -----------------------------------------------------------------------------------------------------
+
+// ruleFwdNames: a wrapper that hands its own parameters on to a module function passes each of them in the position of the
+// callee's parameter of the same name. A parameter passed where the callee expects a differently named one, while the callee has
+// a parameter of the caller's name and type elsewhere, is two arguments swapped (prefix / indent).
+func ruleFwdNames(p *Prog, r *Report, filter func(name string) bool) {
+	const rule = "FWD.names"
+	n := 0
+	for _, fn := range p.FuncList {
+		if !filter(p.Name(fn)) || len(fn.Blocks) == 0 {
+			continue
+		}
+		name := p.Name(fn)
+		ord := newOrdinals()
+		eachInstr(fn, func(b *ssa.BasicBlock, in ssa.Instruction) {
+			c, ok := in.(ssa.CallInstruction)
+			if !ok {
+				return
+			}
+			g := staticCallee(c.Common())
+			if g == nil || !p.InModule(g) || g == fn {
+				return
+			}
+			args := c.Common().Args
+			checked := false
+			bad := ""
+			for i, a := range args {
+				prm, ok := a.(*ssa.Parameter)
+				if !ok || i >= len(g.Params) || prm.Parent() != fn {
+					continue
+				}
+				// same-named callee parameter of the same type at another position?
+				for j, gp := range g.Params {
+					if j == i || gp.Name() != prm.Name() || !types.Identical(gp.Type(), prm.Type()) {
+						continue
+					}
+					checked = true
+					if g.Params[i].Name() != prm.Name() {
+						bad = fmt.Sprintf("parameter %s is passed as argument %d (%s) of %s, which has a parameter %s at position %d", prm.Name(), i, g.Params[i].Name(), p.Name(g), prm.Name(), j)
+					}
+				}
+				if i < len(g.Params) && g.Params[i].Name() == prm.Name() {
+					checked = true
+				}
+			}
+			if !checked {
+				return
+			}
+			n++
+			cons := ord.key(name, "parameters forwarded by name to "+p.Name(g))
+			if bad == "" {
+				r.OK(rule, name, cons, p.Pos(in.Pos()), "every forwarded parameter sits in the position of the callee's parameter of the same name")
+			} else {
+				r.Bad(rule, name, cons, p.Pos(in.Pos()), bad+": two arguments of the same type are swapped")
+			}
+		})
+	}
+	_ = n
+	r.Floor(rule, 3)
+}
+
+// ---- SCAN.complete (C20, C07, C08) ---------------------------------------------------------------------------------------------------
+
+// ruleScanComplete: a loop over the members of a list that looks for members of one type (a map) skips the others: a member of
+// another type never ends the scan. `break` on a failed type test (in the place of `continue`) hides every later member.
+func ruleScanComplete(p *Prog, r *Report, fns []*ssa.Function) {
+	const rule = "SCAN.complete"
+	n := 0
+	for _, fn := range fns {
+		if len(fn.Blocks) == 0 {
+			continue
+		}
+		name := p.Name(fn)
+		ord := newOrdinals()
+		eachInstr(fn, func(b *ssa.BasicBlock, in ssa.Instruction) {
+			ta, ok := in.(*ssa.TypeAssert)
+			if !ok || !ta.CommaOk {
+				return
+			}
+			// operand: the element of a range over a slice of interface{}
+			u, ok := ta.X.(*ssa.UnOp)
+			if !ok {
+				return
+			}
+			ia, ok := u.X.(*ssa.IndexAddr)
+			if !ok || !isRangeIndex(ia.Index) {
+				return
+			}
+			hdr := ia.Index.(*ssa.BinOp).X.(*ssa.Phi).Block()
+			body := naturalLoop(hdr)
+			// loop exit target: the successor of the header outside the loop
+			var exit *ssa.BasicBlock
+			for _, sc := range hdr.Succs {
+				if !body[sc] {
+					exit = sc
+				}
+			}
+			if exit == nil {
+				return
+			}
+			for _, ref := range *ta.Referrers() {
+				ex, ok := ref.(*ssa.Extract)
+				if !ok || ex.Index != 1 || ex.Referrers() == nil {
+					continue
+				}
+				for _, r2 := range *ex.Referrers() {
+					ifi, ok := r2.(*ssa.If)
+					if !ok {
+						continue
+					}
+					n++
+					cons := ord.key(name, "a member of another type is skipped")
+					// the edge taken when the test fails
+					failIdx := 1
+					if ng := normGuard(guard{ifi.Cond, true}); !ng.Pol {
+						failIdx = 0
+					}
+					tgt := ifi.Block().Succs[failIdx]
+					// follow empty jump blocks
+					for len(tgt.Instrs) == 1 && len(tgt.Succs) == 1 && tgt != hdr && tgt != exit {
+						tgt = tgt.Succs[0]
+					}
+					if tgt == exit {
+						r.Bad(rule, name, cons, p.Pos(ta.Pos()), "when the member is not of the type looked for the loop is left (break): the members after it are not examined")
+					} else {
+						r.OK(rule, name, cons, p.Pos(ta.Pos()), "a failed type test goes on with the next member (or handles the member otherwise)")
+					}
+				}
+			}
+		})
+	}
+	_ = n
+}
+
+// ---- FWD.identity (C20) ---------------------------------------------------------------------------------------------------------------
+
+// ruleFwdIdentity: the thin conversion packages hand their arguments to the core functions as they received them. An argument
+// of a core call that is computed from a parameter (rather than being the parameter, through conversions only) makes the wrapper
+// answer a different question than decode-then-query with the same arguments.
+func ruleFwdIdentity(p *Prog, r *Report, pkgs ...string) {
+	const rule = "FWD.identity"
+	n := 0
+	for _, alias := range pkgs {
+		for _, fn := range p.PkgFuncs(alias) {
+			if !p.Exported(fn) || len(fn.Blocks) == 0 {
+				continue
+			}
+			name := p.Name(fn)
+			ord := newOrdinals()
+			eachInstr(fn, func(b *ssa.BasicBlock, in ssa.Instruction) {
+				c, ok := in.(ssa.CallInstruction)
+				if !ok {
+					return
+				}
+				g := staticCallee(c.Common())
+				if g == nil || !p.InModule(g) || !strings.HasPrefix(p.Name(g), "mxj.") {
+					return
+				}
+				for i, a := range c.Common().Args {
+					if !isStringType(a.Type()) && !isStringSlice(a.Type()) && !isByteSlice(a.Type()) {
+						continue
+					}
+					var src *ssa.Parameter
+					for v := range backwardSlice(fn, a) {
+						if prm, ok := v.(*ssa.Parameter); ok && prm.Parent() == fn && types.Identical(prm.Type(), a.Type()) {
+							src = prm
+						}
+					}
+					if src == nil {
+						continue
+					}
+					n++
+					cons := ord.key(name, fmt.Sprintf("argument %d of %s passed on unchanged", i, p.Name(g)))
+					if derivesFrom(a, src) {
+						r.OK(rule, name, cons, p.Pos(in.Pos()), "the argument is parameter "+src.Name()+" itself")
+					} else {
+						r.Bad(rule, name, cons, p.Pos(in.Pos()), "the argument handed to "+p.Name(g)+" is computed from parameter "+src.Name()+" instead of being that parameter: the wrapper no longer equals decoding followed by the core call with the same arguments")
+					}
+				}
+			})
+		}
+	}
+	_ = n
+	r.Floor(rule, 10)
+}
+
+// ---- PANIC.overflow (C15 and the scoped panic rules) ---------------------------------------------------------------------------------
+
+// rulePanicOverflow: the zone analysis reasons over mathematical integers. That is sound for an index or slice bound of the form
+// x + c (c > 0) only if x + c cannot wrap around, i.e. if x is bounded above where the sum is computed — by a constant or by the
+// length of some slice or string (lengths are at most MaxInt - 1 in practice and MaxInt in theory, and then x < len keeps x + 1 in
+// range). A sum of an unbounded value (a number parsed from the input) that is compared with a length only afterwards passes every
+// comparison after wrapping to a negative number: `end := pos + 1; if end > len(vals) …; vals[pos:end]` panics for pos == MaxInt.
+func rulePanicOverflow(p *Prog, r *Report, fns []*ssa.Function) {
+	const rule = "PANIC.overflow"
+	for _, fn := range fns {
+		if len(fn.Blocks) == 0 {
+			continue
+		}
+		var z *zoneFlow
+		name := p.Name(fn)
+		ord := newOrdinals()
+		for _, in := range instrsByPos(fn) {
+			bo, ok := in.(*ssa.BinOp)
+			if !ok || bo.Op != token.ADD || !isIntType(bo.Type()) {
+				continue
+			}
+			k, isK := constInt(bo.Y)
+			x := bo.X
+			if !isK {
+				k, isK = constInt(bo.X)
+				x = bo.Y
+			}
+			if !isK || k <= 0 {
+				continue
+			}
+			// used as an index or a slice bound?
+			asBound := false
+			if bo.Referrers() != nil {
+				for _, ref := range *bo.Referrers() {
+					switch u := ref.(type) {
+					case *ssa.Slice:
+						if u.Low == ssa.Value(bo) || u.High == ssa.Value(bo) || u.Max == ssa.Value(bo) {
+							asBound = true
+						}
+					case *ssa.IndexAddr:
+						asBound = asBound || u.Index == ssa.Value(bo)
+					case *ssa.Index:
+						asBound = asBound || u.Index == ssa.Value(bo)
+					case *ssa.Lookup:
+						asBound = asBound || (u.Index == ssa.Value(bo) && isStringType(u.X.Type()))
+					}
+				}
+			}
+			if !asBound {
+				continue
+			}
+			if z == nil {
+				z = p.zoneFlowOf(fn, nil)
+			}
+			construct := ord.key(name, "no wrap-around in "+p.ExprAt(bo.Pos()))
+			if p.ExprAt(bo.Pos()) == "" {
+				construct = ord.key(name, "no wrap-around in an index sum")
+			}
+			d, reach := z.stateAt(bo)
+			if !reach {
+				r.OK(rule, name, construct, p.Pos(bo.Pos()), "unreachable")
+				continue
+			}
+			t := z.term(x)
+			bounded := false
+			if t.ok && t.n < d.n {
+				if t.n == 0 {
+					bounded = true
+				}
+				for j := 0; j < d.n; j++ {
+					if j != 0 && !strings.HasPrefix(z.names[j], "len(") {
+						continue
+					}
+					if j != t.n && d.get(t.n, j) < zinf/2 {
+						bounded = true
+					}
+				}
+			}
+			if bounded {
+				r.OK(rule, name, construct, p.Pos(bo.Pos()), "the summand is bounded above (by a constant or a length) where the sum is computed")
+			} else {
+				r.Bad(rule, name, construct, p.Pos(bo.Pos()), "the sum is used as an index or slice bound, but its summand has no upper bound where the sum is computed: for the largest int the sum wraps to a negative number, passes a later comparison with a length, and the access panics")
+			}
 		}
 	}
 }
